@@ -1,3 +1,8 @@
+import json
+import os
+import re
+
+import vlib
 from check import Prop
 
 
@@ -13,38 +18,116 @@ class C10(Prop):
         text="Coq theorems: (1) decrypt.Decrypt after the fix: commit never reaches an out-of-range slice, for all byte "
              "strings and keys and whatever base64 decoding / secretbox return (also through loadFromFile with the legacy "
              "and the current key), and a successful decryption used nonce = first 24 bytes, box = rest; the pinned code "
-             "panics on every input decoding to < 24 bytes; (2) the environment loader's map step after its fix: commit "
-             "does not panic for an absent / nil / present entry; (3) x > 0 and x & (x-1) = 0 iff x is a power of two "
-             "(bit-level, all of Z); (4) a Gallina transliteration of the numeric/structural checks of Conf.Validate and "
-             "Path.validate only returns configurations satisfying the documented constraints (positive timeouts, "
-             "power-of-two write queue, UDP payload <= 1472, one all/all_others/~^.*$ alias, record path placeholders, "
-             "segment <= 1 day, deleteAfter 0 or >= segment, regex paths with static sources on demand, SRT passphrase "
-             "lengths, hook/alwaysAvailable restrictions, unique primary rpiCamera ids, secondaries paired). The model is "
-             "tied to the code by running conf.Load in process under recover() on generated inputs and comparing the "
-             "accept/reject decision and evaluating the documented constraints on the real loaded Conf inside Coq.",
+             "panics on every input decoding to < 24 bytes; (2) the environment loader's map / empty-list / sub-key steps "
+             "after their fix: commits do not panic; (3) x > 0 and x & (x-1) = 0 iff x is a power of two (bit-level, all "
+             "of Z); (4) a Gallina transliteration of Conf.Validate and Path.validate - every check whose inputs are plain "
+             "fields, in code order, with the deprecated-parameter migrations - only returns configurations satisfying the "
+             "documented constraints: positive timeouts, power-of-two write queue, UDP payload <= 1472, authentication "
+             "(no empty user, no password on 'any', HTTP/JWT addresses, also for users generated from deprecated "
+             "credentials), listener addresses set when enabled, RTSP transports / encryption / auth methods / digest, "
+             "WebRTC ICE servers and hosts, MoQ, one all/all_others/~^.*$ alias, record path placeholders, segment <= 1 "
+             "day, deleteAfter 0 or >= segment, regex paths with static sources on demand, SRT passphrase lengths, "
+             "hook/alwaysAvailable restrictions, every enumerated rpiCamera parameter, unique primary rpiCamera ids, "
+             "secondaries paired, every deprecated parameter copied to its replacement; (5) every error return of the "
+             "two Go functions (go/ast) is in a Coq table as a modelled check (constructor) or a named oracle. The model "
+             "is tied to the code by running conf.Load in process under recover() on generated inputs, comparing the "
+             "accept/reject decision and the rewritten fields, and evaluating the documented constraints on the real "
+             "loaded Conf inside Coq.",
         note="Partial: panic-freedom of goccy/go-yaml, encoding/json, secretbox, regexp, net/url, net, the mp4 reader "
              "behind alwaysAvailableFile and the rest of the env loader is exercised by the malformed streams, not proved. "
-             "URL/regexp/name/forward/rpiCamera-parameter checks are oracle booleans computed by the real helpers. "
-             "Unmodelled global checks (authentication, addresses, RTSP/WebRTC options) are one oracle boolean.",
-        technique="Coq proof (case analysis over the checks, induction over the path list with the camera-pairing "
-                  "invariant, bit-level induction on positive) + correspondence via vm_compute")
+             "Library calls inside the two functions are oracle booleans computed by the real helpers (19 of 109 error "
+             "sites): IsValidPathName, regexp.Compile, validateURL, net.SplitHostPort, checkRedirect, Forward.Validate, "
+             "checkAlwaysAvailableFile, rePlainCredential.MatchString (+ reflect.DeepEqual as an input). udpMaxPayloadSize "
+             "has no documented lower bound (mediamtx.yml: 'can be decreased'), so none is part of the constraints.",
+        technique="Coq proof (case analysis over the check sequence, induction over the path list with the camera-pairing "
+                  "invariant, bit-level induction on positive) + go/ast translator for the error sites + correspondence "
+                  "via vm_compute")
     rule = ("decrypt.Decrypt directly on valid / wrong-key / bit-flipped inputs and on inputs truncated at every decoded "
             "length 0..40 and every text length 0..40; the same through conf.Load with MTX_CONFKEY / RTSP_CONFKEY / both "
             "(twice = hot reload); environment overrides of absent / empty-body / present map entries; a fixed corpus of "
-            "boundary documents; generated streams: configurations exercising only modelled constraints (compared with the "
-            "model's accept/reject and result), mutated copies of the shipped mediamtx.yml, grammar-generated YAML then "
-            "damaged, random MTX_*/RTSP_* assignments, random bytes, encrypted generated documents. Outcome class "
+            "boundary documents; generated streams: configurations exercising the modelled constraints of paths, "
+            "authentication, listeners, RTSP, WebRTC, MoQ, rpiCamera parameters and deprecated parameters (compared with "
+            "the model's accept/reject and result), mutated copies of the shipped mediamtx.yml, grammar-generated YAML "
+            "then damaged, random MTX_*/RTSP_* assignments, random bytes, encrypted generated documents. Outcome class "
             "{loaded, error, panic}; non-trivial = loaded / decrypted")
     trusted_base = ["Coq 8.16.1 kernel + VM (vm_compute for cases)",
-                    "in-package Go driver zz_verif_c10_test.go (rendering of the real Conf as the model's record; "
-                    "probe paths for the source / rpiCamera oracles)",
+                    "in-package Go driver zz_verif_c10_test.go (rendering of the real Conf as the model's records)",
+                    "translator tools/gen/c10sites (syntactic: go/ast; lists the `return` statements of Conf.Validate and "
+                    "Path.validate; a rule that rejects without a return statement of these two functions is not seen)",
                     "oracle: base64.StdEncoding.DecodeString, secretbox.Open (values shipped per case)",
-                    "oracle: IsValidPathName, regexp.Compile, validateURL/SplitHostPort (via Path.validate on a default "
-                    "path), checkRedirect, Forward.Validate, rpiCamera parameter checks, checkAlwaysAvailableFile",
-                    "model Model/C10_Load.v hand-written from conf.go/path.go/decrypt.go/env.go, tied by correspondence"]
+                    "oracle: IsValidPathName, regexp.Compile, validateURL, net.SplitHostPort, checkRedirect, "
+                    "Forward.Validate, checkAlwaysAvailableFile, rePlainCredential.MatchString, reflect.DeepEqual "
+                    "(booleans computed per case by the real function on the real value)",
+                    "model Model/C10_Load.v hand-written from conf.go/path.go/decrypt.go/env.go, tied by correspondence "
+                    "and by the error-site table Model/C10_Sites.v"]
     assumptions = ["Go int is 64 bit", "third-party parsers (YAML, JSON, regexp, URL, secretbox, MP4) do not panic: "
                    "exercised by the run, not proved",
-                   "hot reload calls the same conf.Load (internal/core/core.go)"]
+                   "hot reload calls the same conf.Load (internal/core/core.go)",
+                   "copyStructFields merges pathDefaults and optional paths as C09/C12 describe (the model input is the "
+                   "merged path produced by the real newPath)"]
+
+    # ---- translator: error return sites of Conf.Validate / Path.validate ------------------------------------
+    def generate(self, ctx):
+        out = os.path.join(vlib.COQ, "gen", "C10_ErrSites.v")
+        notes = os.path.join(ctx.workdir, "c10_sites.json")
+        tmp = os.path.join(ctx.workdir, "C10_ErrSites.v")
+        rc, o = vlib.sh(["go", "run", "./c10sites", vlib.REPO, tmp, notes], cwd=os.path.join(vlib.VERIF, "tools", "gen"),
+                        env=vlib.go_env(), timeout=300)
+        if os.path.exists(tmp):
+            new = open(tmp).read()
+            old = open(out).read() if os.path.exists(out) else None
+            if new != old:
+                with vlib.Lock("coqmake"):
+                    open(out, "w").write(new)
+        if rc != 0:
+            raise RuntimeError("translator c10sites failed: " + o[-2000:])
+        sites = json.load(open(notes))["sites"]
+        self._sites = sites
+        # the same comparison as sites_tie (Model/C10_Sites.v), here only to name the offending sites in the report
+        table = []
+        src = open(os.path.join(vlib.COQ, "theories", "Model", "C10_Sites.v")).read()
+        for m in re.finditer(r'^\s*\((\d), (\d), bytes "((?:[^"]|"")*)", (\w+)', src, re.M):
+            table.append((int(m.group(1)), int(m.group(2)), m.group(3).replace('""', '"')))
+        gen = [(s["fn"], s["kind"], s["text"]) for s in sites]
+        extra = [k for k in set(gen) if gen.count(k) > table.count(k)]
+        missing = [k for k in set(table) if table.count(k) > gen.count(k)]
+        odd = [s for s in sites if s["kind"] == 2]
+        if extra or missing or odd:
+            where = {(s["fn"], s["kind"], s["text"]): "%s line %d" % (s["func"], s["line"]) for s in sites}
+            raise RuntimeError(
+                "error sites of Conf.Validate / Path.validate differ from Model/C10_Sites.v: in the code but not in the "
+                "table: %s; in the table but not in the code: %s; unrecognised return shape: %s" % (
+                    ["%s: %r" % (where.get(k), k[2]) for k in extra], [k[2] for k in missing],
+                    ["%s line %d" % (s["func"], s["line"]) for s in odd]))
+        self._notes = ["error sites: %d (Conf.Validate %d, Path.validate %d), all in Model/C10_Sites.v" % (
+            len(sites), sum(1 for s in sites if s["fn"] == 0), sum(1 for s in sites if s["fn"] == 1))]
+        return self._notes
+
+    def extra_checks(self, ctx, cases):
+        # distribution note: which error sites the compare stream reached (real Validate error against the format strings)
+        sites = getattr(self, "_sites", None)
+        if not sites:
+            return []
+        pats = []
+        for s in sites:
+            if s["kind"] != 0:
+                continue
+            rx = re.escape(s["text"].replace("%%", "\0")).replace("\0", "%")
+            rx = re.sub(r"%[swdv]", ".*", rx.replace("\\%", "%"))
+            pats.append((re.compile("^(?:.*: )?" + rx + "$", re.S), s["text"]))
+        reached = set()
+        for c in cases:
+            e = (c.get("desc") or {}).get("validate_error")
+            if not e or e == "<nil>":
+                continue
+            for rx, text in pats:
+                if rx.match(e):
+                    reached.add(text)
+                    break
+        total = len({t for _, t in pats})
+        self._notes.append("compare stream reached %d of %d distinct fmt.Errorf sites of Conf.Validate / Path.validate" % (
+            len(reached), total))
+        return []
 
 
 PROP = C10()
